@@ -39,25 +39,64 @@ def ms_sub(a, b):
     return out
 
 
-def closed_before(state, goal_pos, th):
-    """Is `th` already available at the goal: an earlier visible line whose sequent proves it
-    (same proposition, hypotheses included in th's), or trivially true (A1 --> .. --> An --> Ai)?"""
-    from logic import logic
+def indep_trivial(t):
+    """Independent statement of 'trivially true': after stripping the leading !-binders and then
+    the assumptions, the conclusion (which may itself be quantified) is one of the assumptions.  Written on
+    the kernel Term interface only; its agreement with logic.trivial_macro().can_eval (the code
+    under test uses that) is reported as a correspondence stream, not assumed."""
+    from kernel.term import Var
+    assums, i = [], 0
+    while t.is_forall():                 # leading binders only: !x_1 .. x_k. A_1 --> .. --> A_n --> C
+        v = Var("_triv%d" % i, t.arg.var_T)
+        i += 1
+        t = t.arg.subst_bound(v)
+    while t.is_implies():
+        assums.append(t.arg1)
+        t = t.arg
+    return t in assums
+
+
+def closed_before(state, goal_pos, prop, allowed_hyps):
+    """Is the advertised goal `prop` already available at the goal line: an earlier visible line
+    states it under hypotheses among `allowed_hyps` (the goal's own and those the step adds), or it
+    is trivially true?"""
     for pos, it in base.walk(state):
         if it.th is not None and base.visible(pos, goal_pos):
-            if it.th.prop == th.prop and set(it.th.hyps) <= set(th.hyps):
+            if it.th.prop == prop and set(it.th.hyps) <= allowed_hyps:
                 return "fact"
     try:
-        if logic.trivial_macro().can_eval(th.prop):
+        if indep_trivial(prop):
             return "trivial"
     except Exception:  # noqa
         pass
     return None
 
 
+def rechecks(state):
+    """True / False / None (timeout): does the state pass a full re-check?"""
+    try:
+        with time_limit(base.STEP_LIMIT * 3):
+            copy.copy(state).check_proof()
+        return True
+    except Timeout:
+        return None
+    except Exception:  # noqa
+        return False
+
+
+SEARCH_LOG = {}       # sequent -> searches made for it in this process (see examine_choice)
+
+
 class Examiner:
-    def __init__(self, ctx, rng, max_choices):
+    def __init__(self, ctx, rng, max_choices, recorder=None):
         self.ctx, self.rng, self.max_choices = ctx, rng, max_choices
+        self.recorder = recorder
+        self._start = (None, None)       # (state object, does it re-check)
+
+    def start_ok(self, state):
+        if self._start[0] is not state:
+            self._start = (state, rechecks(state))
+        return self._start[1]
 
     # ---------------------------------------------------------------- choices at one state
     def examine(self, goal, trail, state, hint_step=None):
@@ -95,6 +134,23 @@ class Examiner:
         ctx = self.ctx
         goal.set_context()
         before = base.snapshot(state)
+        if getattr(self, "_hist_state", None) is not state:
+            self._hist_state, self._hist = state, {}
+        hist = self._hist.setdefault((gp, json.dumps(trail, sort_keys=True, default=str)), [])
+        self.earlier = [list(h) for h in hist]      # searches of this goal made before, for the replay
+        hist.append([ids(f) for f in fs])
+        # searches of the *same sequent* made in other states of this process (a search may
+        # remember what it found for a sequent): kept so that a failure can be replayed
+        try:
+            th = state.get_proof_item(gp).th
+            log = SEARCH_LOG.setdefault(th, [])
+            here = (goal.ident(), json.dumps(trail, sort_keys=True, default=str), ids(gp))
+            self.earlier_states = [e["entry"] for e in log if e["where"] != here][-4:]
+            log.append({"where": here, "entry": {"goal": goal.to_json(), "trail": trail, "goal_id": ids(gp), "fact_ids": [ids(f) for f in fs]}})
+            if len(log) > 8:
+                del log[0]
+        except Exception:  # noqa
+            self.earlier_states = []
         try:
             with time_limit(base.STEP_LIMIT):
                 res = state.search_method(ids(gp), [ids(f) for f in fs])
@@ -120,7 +176,8 @@ class Examiner:
         name = sugg["method_name"]
         goal.set_context()
         rp = {"goal": goal.to_json(), "trail": trail, "goal_id": sugg["goal_id"], "fact_ids": sugg.get("fact_ids", []),
-              "suggestion": jsonable(sugg)}
+              "suggestion": jsonable(sugg), "earlier_searches": getattr(self, "earlier", []),
+              "earlier_states": getattr(self, "earlier_states", [])}
         try:
             step = base.fill_params(state, clean(sugg), rng)
         except Exception as e:  # noqa
@@ -135,8 +192,14 @@ class Examiner:
             target = copy.copy(state)
             goal.set_context()
             try:
-                with time_limit(base.STEP_LIMIT):
-                    method.apply_method(target, copy.deepcopy(step))
+                if self.recorder is not None:
+                    self.recorder.active = True
+                try:
+                    with time_limit(base.STEP_LIMIT):
+                        method.apply_method(target, copy.deepcopy(step))
+                finally:
+                    if self.recorder is not None:
+                        self.recorder.active = False
                 outcome = "ok"
                 break
             except Timeout:
@@ -198,34 +261,54 @@ class Examiner:
         new = [it.th for _, it in base.walk(target) if it.rule == "sorry"]
         rest = ms_sub(old, [goal_th])
         new_open = ms_sub(new, rest)
+        old_lines = [(it.rule, it.th, base.args_str(it)) for _, it in base.walk(state)]
+        new_lines = [(it.rule, it.th, base.args_str(it)) for _, it in base.walk(target)]
+        added = ms_sub(new_lines, old_lines)
         if "_goal" in sugg:
             adv = list(sugg["_goal"])
             extra = [th for th in new_open if th.prop not in adv]
             if extra:
                 ctx.violation("unadvertised-goal:%s" % name,
                               "%s on %s advertised goals %s but leaves open %s" % (clean(sugg), goal.ident(), [str(t) for t in adv], [str(t) for t in extra]), rp)
-            if not adv and new_open:
-                ctx.count("solves-but-leaves:%s" % name)
+            # a gap left open keeps the hypotheses of the goal (the step may add some, never drop one)
+            lost = [th for th in new_open if th.prop in adv and not set(goal_th.hyps) <= set(th.hyps)]
+            if lost:
+                ctx.violation("gap-lost-hypotheses:%s" % name,
+                              "%s on %s: goal `%s` but the gap left open is `%s`" % (clean(sugg), goal.ident(), goal_th, lost[0]), rp)
             open_props = [th.prop for th in new_open]
+            allowed = set(goal_th.hyps)
+            for l in added:
+                if l[1] is not None:
+                    allowed |= set(l[1].hyps)
             for p in adv:
                 if p not in open_props:
-                    from kernel.thm import Thm
-                    how = closed_before(state, gp, Thm(p, goal_th.hyps))
+                    how = closed_before(state, gp, p, allowed)
                     if how is None:
                         ctx.violation("advertised-goal-vanished:%s" % name,
                                       "%s on %s advertised goal %s which is neither left open nor proved by an earlier fact nor trivial" % (clean(sugg), goal.ident(), p), rp)
                     else:
                         ctx.count("advertised-closed-by-%s" % how)
-            # the goal itself is no longer open (unless re-advertised)
+                # the two statements of 'trivially true' (correspondence, not a verdict)
+                try:
+                    from logic import logic
+                    if bool(logic.trivial_macro().can_eval(p)) != bool(indep_trivial(p)):
+                        ctx.broken("correspondence:c14:trivial", "trivial_macro().can_eval and the independent test disagree on %s" % p)
+                except Exception:  # noqa
+                    pass
+            # the goal line itself is no longer a gap, and the result is justified
+            if self.start_ok(state):
+                ok = rechecks(target)
+                if ok is False:
+                    ctx.violation("advertised-goal-step-not-justified:%s" % name,
+                                  "%s on %s: the state after the step does not re-check" % (clean(sugg), goal.ident()), rp)
+            elif self.start_ok(state) is False:
+                ctx.count("start-state-does-not-recheck")
         elif "_fact" in sugg:
             # a forward step: the gaps stay as they are, except that the new fact may close the goal
             if new_open not in ([goal_th], []):
                 ctx.violation("forward-step-changes-goals:%s" % name,
                               "%s on %s: open goals %s became %s" % (clean(sugg), goal.ident(), [str(t) for t in old], [str(t) for t in new]), rp)
         if "_fact" in sugg:
-            old_lines = [(it.rule, it.th, base.args_str(it)) for _, it in base.walk(state)]
-            new_lines = [(it.rule, it.th, base.args_str(it)) for _, it in base.walk(target)]
-            added = ms_sub(new_lines, old_lines)
             for p in sugg["_fact"]:
                 hit = [l for l in added if l[1] is not None and l[1].prop == p and l[0] != "sorry"]
                 if not hit:
@@ -233,23 +316,12 @@ class Examiner:
                                   "%s on %s advertised fact %s; new lines are %s" % (clean(sugg), goal.ident(), p, [(l[0], str(l[1])) for l in added]), rp)
             # 'proved': the state re-checks with the new line in it (when the state before did:
             # a starting state that does not re-check is C13's subject)
-            try:
-                with time_limit(base.STEP_LIMIT * 3):
-                    copy.copy(state).check_proof()
-            except Timeout:
-                return
-            except Exception:  # noqa
+            if self.start_ok(state):
+                if rechecks(target) is False:
+                    ctx.violation("advertised-fact-not-proved:%s" % name,
+                                  "%s on %s: the state with the new fact does not re-check" % (clean(sugg), goal.ident()), rp)
+            elif self.start_ok(state) is False:
                 ctx.count("start-state-does-not-recheck")
-                return
-            chk = copy.copy(target)
-            try:
-                with time_limit(base.STEP_LIMIT * 3):
-                    chk.check_proof()
-            except Timeout:
-                ctx.count("recheck:timeout")
-            except Exception as e:  # noqa
-                ctx.violation("advertised-fact-not-proved:%s:%s" % (name, type(e).__name__),
-                              "%s on %s: the state with the new fact does not re-check: %s" % (clean(sugg), goal.ident(), base.short(e)), rp)
 
 
 def jsonable(sugg):
@@ -310,11 +382,83 @@ def run(ctx):
         "search bodies are not modelled; the Lean theorem covers the splice (apply half) only",
         "z3 is never suggested by search (Z3Method.search returns []), z3wrapper.check_z3 = False during the run"]
     base.neutralise_z3(ctx)
+    recorder = base.Recorder(ctx.scale(1500, 15000), every=ctx.scale(3, 2))
+    recorder.active = False                     # switched on around the application of a suggestion
+    recorder.install(ctx)
+    try:
+        streams(ctx, recorder)
+    finally:
+        recorder.uninstall()
+    base.correspondence(ctx, recorder, exe=EXE, id_cases=ctx.scale(300, 3000))
+
+
+# States aimed at bookkeeping that the sampled states reach rarely: a forward step whose new fact
+# is exactly the goal (the three copies of "new fact closes the goal" in rewrite_fact,
+# rewrite_fact_with_prev, apply_forward_step), searched with several fact selections.
+DIRECTED = [
+    {"name": "rewrite-fact-with-prev-closes-goal", "theory": "logic", "vars": {"a": "'a", "b": "'a", "P": "'a => bool"},
+     "prop": "a = b --> P a --> P b", "steps": [], "goal_id": "2", "facts": [["0", "1"], ["1", "0"], ["0"], []]},
+    {"name": "apply-forward-step-closes-goal", "theory": "logic", "vars": {"A": "bool", "B": "bool"},
+     "prop": "A & B --> A", "steps": [], "goal_id": "1", "facts": [["0"], []]},
+    {"name": "rewrite-fact-closes-goal", "theory": "logic", "vars": {"A": "bool"},
+     "prop": "~~A --> A", "steps": [], "goal_id": "1", "facts": [["0"], []]},
+    {"name": "conditional-rewrite-with-and-without-its-condition", "theory": "logic", "vars": {"P": "bool", "a": "'a", "b": "'a"},
+     "prop": "P --> (if P then a else b) = a", "steps": [], "goal_id": "1", "facts": [[], ["0"], []]},
+]
+
+
+def run_directed(ctx, ex):
+    from logic import basic
+    from server import method
+    for sc in DIRECTED:
+        try:
+            basic.load_theory(sc["theory"])
+            g = base.Goal(sc["theory"], "directed:" + sc["name"], dict(sc["vars"]), sc["prop"], generated=True)
+            st = g.init_state()
+            trail = []
+            for step in sc["steps"]:
+                g.set_context()
+                method.apply_method(st, copy.deepcopy(step))
+                trail.append({"step": step, "on_copy": False, "adopt": True})
+            gp = tuple(int(x) for x in sc["goal_id"].split("."))
+            n0 = ctx.coverage["evaluations"]
+            for fs in sc["facts"]:
+                ex.examine_choice(g, trail, st, gp, [tuple(int(x) for x in f.split(".")) for f in fs])
+            if ctx.coverage["evaluations"] == n0:
+                ctx.count("directed-without-suggestion:" + sc["name"])
+        except Timeout:
+            ctx.count("directed:timeout:" + sc["name"])
+        except Exception as e:  # noqa
+            ctx.count("directed-not-runnable:" + sc["name"])
+            ctx.log("directed state %s could not be built: %s: %s" % (sc["name"], type(e).__name__, base.short(e)))
+
+
+def log_generator_search(state, goal_pos, facts):
+    """Hook for the searches made by the step generator of C13 (they too are part of the history
+    a later search may depend on)."""
+    try:
+        r = base.CURRENT_RUNNER
+        if r is None or r.state is not state:
+            return
+        th = state.get_proof_item(goal_pos).th
+        trail = [dict(t) for t in r.trail]
+        log = SEARCH_LOG.setdefault(th, [])
+        log.append({"where": (r.goal.ident(), json.dumps(trail, sort_keys=True, default=str), ids(goal_pos)),
+                    "entry": {"goal": r.goal.to_json(), "trail": trail, "goal_id": ids(goal_pos), "fact_ids": [ids(f) for f in facts]}})
+        if len(log) > 8:
+            del log[0]
+    except Exception:  # noqa
+        pass
+
+
+def streams(ctx, recorder):
+    base.SEARCH_HOOK = log_generator_search
     theories = base.THEORIES_QUICK if ctx.tier == "quick" else base.THEORIES_THOROUGH
-    budget = {"logic_base": 10, "logic": 14, "function": 6, "list": 5, "hoare": 4, "nat": 5, "set": 5}
+    budget = {"logic_base": 9, "logic": 12, "function": 5, "list": 4, "hoare": 4, "nat": 4, "set": 4}
+    run_directed(ctx, Examiner(ctx, ctx.rng("directed"), 0, recorder))
     for thy in theories:
         rng = ctx.rng("lib/" + thy)
-        ex = Examiner(ctx, rng, ctx.scale(2, 3))
+        ex = Examiner(ctx, rng, ctx.scale(2, 3), recorder)
         n = 0
         try:
             for item in base.theory_items(thy):
@@ -336,7 +480,7 @@ def run(ctx):
     from logic import basic
     basic.load_theory("logic")
     rng = ctx.rng("generated")
-    ex = Examiner(ctx, rng, ctx.scale(2, 4))
+    ex = Examiner(ctx, rng, ctx.scale(2, 4), recorder)
     for g in base.gen_goals(rng, ctx.scale(25, 300)):
         try:
             g.init_state()
@@ -359,22 +503,30 @@ def rebuild(goal, trail):
 
 
 def replay(ctx, rp):
-    from logic import basic
     r = rp["replay"]
-    g = r["goal"]
     base.neutralise_z3(ctx)
-    if g.get("generated"):
-        basic.load_theory(g["theory"])
-        goal = base.Goal(g["theory"], g["name"], g["vars"], g["prop"], generated=True)
-    else:
-        basic.load_theory(g["theory"], limit=("thm", g["name"]))
-        data = basic.load_json_data(g["theory"], "master")
-        raw = [x for x in data["content"] if x.get("ty") == "thm" and x.get("name") == g["name"]][0]
-        goal = base.Goal(g["theory"], g["name"], raw["vars"], raw["prop"], steps=raw.get("steps"))
+    # searches of the same sequent in other states that preceded the failing one
+    for e in r.get("earlier_states", []):
+        try:
+            g0 = base.load_goal(e["goal"])
+            st0 = rebuild(g0, e["trail"])
+            g0.set_context()
+            st0.search_method(e["goal_id"], e["fact_ids"])
+        except Exception:  # noqa
+            pass
+    goal = base.load_goal(r["goal"])
     state = rebuild(goal, r["trail"])
     ex = Examiner(ctx, ctx.rng("replay"), 0)
     gp = tuple(int(x) for x in str(r["goal_id"]).split("."))
     fs = [tuple(int(x) for x in f.split(".")) for f in r.get("fact_ids", [])]
+    # the searches that preceded the failing one in the original run (a search may depend on
+    # earlier searches of the same goal)
+    for prev in r.get("earlier_searches", []):
+        try:
+            goal.set_context()
+            state.search_method(r["goal_id"], prev)
+        except Exception:  # noqa
+            pass
     ex.examine_choice(goal, r["trail"], state, gp, fs)
     for v in ctx.violations:
         print("still fails:", v[1][:400])
@@ -382,20 +534,32 @@ def replay(ctx, rp):
 
 
 MANIFEST = {
-    "text": "Property oracle on the real code: at reachable states (every prefix of recorded library proofs, states of perturbed/random edit "
-            "sequences), for gap and fact selections (<=3 facts), every suggestion of search_method is applied to a copy with the declared "
-            "parameters supplied type-directedly: it must succeed or raise ParameterQueryException naming parameters; on success the newly open "
-            "goals are compared with the advertised _goal list (each advertised goal not left open must be provable by an earlier visible line "
-            "or trivially), a solving suggestion leaves none, an advertised _fact appears as a new non-gap line and the state re-checks. Lean "
-            "(model of apply_tactic shared with C13): open_goals_subset_advertised_partial, solving_shape_leaves_no_new_gap, "
-            "forward_fact_opens_no_gap_partial. Search bodies are not modelled.",
+    "text": "Property oracle on the real code: at reachable states (directed states, every prefix of recorded library proofs, states of "
+            "perturbed/random edit sequences), for gap and fact selections (<=3 facts; the same goal is searched repeatedly with different "
+            "selections in one process), every suggestion of search_method is applied to a copy with the declared parameters supplied "
+            "type-directedly: it must succeed or raise ParameterQueryException naming parameters; on success the newly open goals are "
+            "compared with the advertised _goal list (proposition, and no hypothesis of the goal lost; each advertised goal not left open must "
+            "be stated by an earlier visible line or be trivially true by an independent test), the state after a _goal or _fact suggestion "
+            "must re-check, an advertised _fact appears as a new non-gap line. Every apply_tactic / forward-step primitive call made while "
+            "applying suggestions is replayed on the Lean model (c14_model). Lean (model of apply_tactic shared with C13), for exported lines "
+            "numbered id, id+1, ... (checked on every captured export): open_goals_subset_advertised (gaps after <= gaps before minus the "
+            "goal line plus the gaps of the proof term), solving_shape_closes_exactly_the_goal; without that hypothesis "
+            "open_goals_subset_advertised_partial, solving_shape_leaves_no_new_gap_partial; forward_fact_opens_no_gap_partial. Not proved: "
+            "that a vanished advertised gap went through find_goal/trivial (by construction of the model only); search bodies.",
     "note": "Trusted: Lean kernel (propext/Classical.choice/Quot.sound), harness generators and parameter guesses, the reading of `_goal`/`_fact` "
-            "as what a suggestion advertises (method.output_hint), holpy's checker for 'proved'. A failure after the harness supplied parameters "
-            "that the method asked for is counted but not reported (the guess may be at fault).",
+            "as what a suggestion advertises (method.output_hint), holpy's checker for 'justified'. A failure after the harness supplied "
+            "parameters that the method asked for is counted but not reported (the guess may be at fault).",
     "design_ref": "DESIGN.md 4/C14",
 }
 FINDINGS = [
+<<<<<<< HEAD
     {"status": "fixed", "key": "fails-outright:exists_elim:AttributeError:'NoneType'_object_has_no", "commit": "793f072",
+=======
+    {"status": "fixed", "key": "advertised-goal-step-not-justified:apply_backward_step", "commit": "fixes/C13-9.patch",
+     "what": "apply_backward_step someI with fact 0.2.2 on logic_base.exists_thm (goal 0.2.3 `P (Some P)`) was suggested as solving but "
+             "replaced the goal by `P (SOME x1. P x1)` (equal only up to eta); the state no longer re-checked"},
+    {"status": "fixed", "key": "fails-outright:exists_elim:AttributeError:'NoneType'_object_has_no", "commit": "793f072",
+>>>>>>> c13b
      "what": "exists_elim suggested for a goal that is followed by a subproof line (logic.ex_conj_distrib after cases + introduction, goal 1, "
              "fact 0) failed with AttributeError: it re-created the following lines with set_line, dropping their subproofs"},
     {"status": "fixed", "key": "fails-outright:induction:IndexError:list_index_out_of", "commit": "8f46948",
